@@ -101,8 +101,19 @@ def r3(ctx, chk):
     pair = [e.id for e in rets[0].value.elts]
     pairs = [tuple(pair)]
     # inner per-split lists appended pairwise as well
-    for a, b in (("current_parsed", "current_substrings"), ("possible_parsed", "possible_substrings")):
-        pairs.append((a, b))
+    # lists handed together to choose_best_split, and the inner lists appended into them
+    for c in iter_own_nodes(pf.node):
+        if isinstance(c, ast.Call) and ast.unparse(c.func).endswith("choose_best_split") and len(c.args) == 2 \
+                and all(isinstance(a, ast.Name) for a in c.args):
+            outer = (c.args[0].id, c.args[1].id)
+            pairs.append(outer)
+            inner = {}
+            for d in iter_own_nodes(pf.node):
+                if isinstance(d, ast.Call) and isinstance(d.func, ast.Attribute) and d.func.attr == "append" \
+                        and isinstance(d.func.value, ast.Name) and d.func.value.id in outer and d.args and isinstance(d.args[0], ast.Name):
+                    inner[d.func.value.id] = d.args[0].id
+            if set(inner) == set(outer):
+                pairs.append((inner[outer[0]], inner[outer[1]]))
     n = 0
     for a, b in pairs:
         for block in _blocks(pf):
